@@ -310,6 +310,8 @@ func init() {
 			joe("vhC06Joe", "NSUB", 1, "NMSG", 1, "NSHUT", 1, "CANCEL", 1, "TOPICS", 0),
 			joe("vhC06Joe", "NSUB", 2, "NMSG", 1, "NSHUT", 1, "CANCEL", 0, "TOPICS", 0),
 			joe("vhC06Joe", "NSUB", 1, "NMSG", 1, "NSHUT", 0, "CANCEL", 1, "TOPICS", 0, "REPLAYER", 2),
+			joe("vhC06Joe", "NSUB", 1, "NMSG", 3, "NSHUT", 0, "CANCEL", 0, "TOPICS", 0),
+			joe("vhC06Joe", "NSUB", 2, "NMSG", 2, "NSHUT", 0, "CANCEL", 0, "TOPICS", 0),
 		},
 		Thorough: []hrun{
 			joe("vhC06Joe", "NSUB", 2, "NMSG", 1, "NSHUT", 0, "CANCEL", 1, "TOPICS", 0),
@@ -318,7 +320,7 @@ func init() {
 		},
 		Labels: []string{"C06/", "panic:"},
 		Bounds: map[string]string{
-			"quick":    "every interleaving of visible operations (channel send/receive/select/close; invisible steps commute) of: {1 subscriber, 1 message, cancellation of its context}, the same plus a Shutdown call, {2 subscribers, 1 message, Shutdown}, {1 subscriber, 1 message, cancellation, a replayer whose Put/Replay may fail or panic}; every Send and Flush may fail (symbolic outcome per call)",
+			"quick":    "every interleaving of visible operations (channel send/receive/select/close; invisible steps commute) of: {1 subscriber, 1 message, cancellation of its context}, the same plus a Shutdown call, {2 subscribers, 1 message, Shutdown}, {1 subscriber, 1 message, cancellation, a replayer whose Put/Replay may fail or panic}, {1 subscriber, 3 messages}, {2 subscribers, 2 messages}; every Send and Flush may fail (symbolic outcome per call)",
 			"thorough": "{2 subscribers, 1 message, both cancellable}, {1 subscriber, 2 messages, cancellation, Shutdown}, {2 subscribers, 2 messages}",
 		},
 		Outside: []string{"more goroutines / messages than the configuration", "Go's memory model below channel operations (sequential consistency of channel and Once operations is assumed; Joe shares no plain variables between goroutines)", "scheduler fairness and timing; GOMAXPROCS as such (every interleaving of visible operations subsumes it for race-free code)"},
@@ -331,6 +333,7 @@ func init() {
 			joe("vhC07Joe", "NSUB", 1, "NMSG", 1, "NSHUT", 2, "CANCEL", 0, "TOPICS", 0),
 			joe("vhC07Joe", "NSUB", 2, "NMSG", 1, "NSHUT", 1, "CANCEL", 0, "TOPICS", 0, "FAULTS", 1),
 			joe("vhC07Joe", "NSUB", 2, "NMSG", 0, "NSHUT", 0, "CANCEL", 1, "TOPICS", 0),
+			joe("vhC07Joe", "NSUB", 1, "NMSG", 3, "NSHUT", 1, "CANCEL", 0, "TOPICS", 0, "FAULTS", 1),
 		},
 		Thorough: []hrun{
 			joe("vhC07Joe", "NSUB", 2, "NMSG", 1, "NSHUT", 2, "CANCEL", 0, "TOPICS", 0),
@@ -339,7 +342,7 @@ func init() {
 		},
 		Labels: []string{"C07/", "panic:"},
 		Bounds: map[string]string{
-			"quick":    "every interleaving of visible operations of: {1 subscriber, 1 message, cancel, 1 Shutdown}, {1 subscriber, 1 message, 2 concurrent Shutdowns}, {2 subscribers, 1 message, 1 Shutdown, failing Send/Flush}, {2 cancellable subscribers, no Shutdown}; every caller may be the one that runs Joe's lazy initialisation",
+			"quick":    "every interleaving of visible operations of: {1 subscriber, 1 message, cancel, 1 Shutdown}, {1 subscriber, 1 message, 2 concurrent Shutdowns}, {2 subscribers, 1 message, 1 Shutdown, failing Send/Flush}, {2 cancellable subscribers, no Shutdown}, {1 subscriber, 3 messages, 1 Shutdown, failing Send/Flush}; every caller may be the one that runs Joe's lazy initialisation",
 			"thorough": "{2 subscribers, 1 message, 2 Shutdowns}, {1 subscriber, 2 messages, cancel, Shutdown, failures}, {2 cancellable subscribers, 1 message}",
 		},
 		Outside: []string{"Shutdown contexts that expire (the context passed to Shutdown never ends here)", "subscribers whose Send blocks (excluded by the property)", "liveness under an unfair scheduler with unbounded publishers"},
@@ -351,15 +354,17 @@ func init() {
 			joe("vhC03Joe", "NSUB", 2, "NMSG", 2, "NSHUT", 0, "CANCEL", 0, "TOPICS", 1),
 			joe("vhC03Joe", "NSUB", 1, "NMSG", 2, "NSHUT", 0, "CANCEL", 1, "TOPICS", 0, "FAULTS", 1),
 			joe("vhC03Joe", "NSUB", 2, "NMSG", 1, "NSHUT", 1, "CANCEL", 0, "TOPICS", 0),
+			joe("vhC03Joe", "NSUB", 2, "NMSG", 1, "NSHUT", 0, "CANCEL", 0, "TOPICS", 1, "FAULTS", 1),
 		},
 		Thorough: []hrun{
+			joe("vhC03Joe", "NSUB", 2, "NMSG", 2, "NSHUT", 0, "CANCEL", 0, "TOPICS", 0, "FAULTS", 1),
 			joe("vhC03Joe", "NSUB", 2, "NMSG", 2, "NSHUT", 0, "CANCEL", 0, "TOPICS", 1, "NTOPICS", 2),
 			joe("vhC03Joe", "NSUB", 2, "NMSG", 1, "NSHUT", 0, "CANCEL", 1, "TOPICS", 0),
 			joe("vhC03Joe", "NSUB", 3, "NMSG", 1, "NSHUT", 0, "CANCEL", 0, "TOPICS", 1),
 		},
 		Labels: []string{"C03/", "panic:"},
 		Bounds: map[string]string{
-			"quick":    "every interleaving of visible operations of: {2 subscribers, 1 publisher x 2 messages, symbolic one-byte topics on both sides}, {1 cancellable subscriber, 2 messages, failing Send/Flush}, {2 subscribers, 1 message, Shutdown}; a recording contract replayer is the linearisation witness (order of Put and of registration)",
+			"quick":    "every interleaving of visible operations of: {2 subscribers, 1 publisher x 2 messages, symbolic one-byte topics on both sides}, {1 cancellable subscriber, 2 messages, failing Send/Flush}, {2 subscribers, 1 message, Shutdown}, {2 subscribers with symbolic topics, 1 message, failing Send/Flush}; a recording contract replayer is the linearisation witness (order of Put and of registration)",
 			"thorough": "{2 subscribers, 2 messages, up to 2 topics each}, {2 cancellable subscribers, 1 message}, {3 subscribers, 1 message}",
 		},
 		Outside: []string{"more goroutines / messages than the configuration; several publishers (one publisher thread: program order)", "Joe with the real replayers (their contract is decided in C08/C09)"},
@@ -370,14 +375,16 @@ func init() {
 		Quick: []hrun{
 			joe("vhC17Joe", "NSUB", 2, "NMSG", 1, "NSHUT", 0, "CANCEL", 0, "TOPICS", 0, "REPLAYER", 1),
 			joe("vhC17Joe", "NSUB", 1, "NMSG", 2, "NSHUT", 0, "CANCEL", 0, "TOPICS", 0, "REPLAYER", 2),
+			joe("vhC17Joe", "NSUB", 2, "NMSG", 2, "NSHUT", 0, "CANCEL", 0, "TOPICS", 1, "REPLAYER", 1),
 		},
 		Thorough: []hrun{
+			joe("vhC17Joe", "NSUB", 3, "NMSG", 1, "NSHUT", 0, "CANCEL", 0, "TOPICS", 1, "REPLAYER", 1),
 			joe("vhC17Joe", "NSUB", 2, "NMSG", 2, "NSHUT", 0, "CANCEL", 0, "TOPICS", 0, "REPLAYER", 1),
 			joe("vhC17Joe", "NSUB", 2, "NMSG", 1, "NSHUT", 0, "CANCEL", 0, "TOPICS", 0, "REPLAYER", 2),
 		},
 		Labels: []string{"C17/", "C06/", "panic:"},
 		Bounds: map[string]string{
-			"quick":    "every interleaving of: {2 subscribers whose every Send/Flush may fail, 1 message}, {1 subscriber, 2 messages, a replayer whose every Put/Replay returns normally, returns an error or panics}",
+			"quick":    "every interleaving of: {2 subscribers whose every Send/Flush may fail, 1 message}, {1 subscriber, 2 messages, a replayer whose every Put/Replay returns normally, returns an error or panics}, {2 subscribers and 2 messages with symbolic one-byte topics (subscribers on different topics), failing Send/Flush}",
 			"thorough": "{2 subscribers, 2 messages, failing clients}, {2 subscribers, 1 message, failing/panicking replayer}",
 		},
 		Outside: []string{"as C03"},
@@ -388,14 +395,24 @@ func init() {
 		Quick: []hrun{
 			joe("vhC04Joe", "NSUB", 1, "NMSG", 2, "TOPICS", 0),
 			joe("vhC04Joe", "NSUB", 1, "NMSG", 2, "TOPICS", 1),
+			// the replayer contract C04 relies on, for the real replayers (same harnesses as C08/C09)
+			{Harness: "vhC08Put", Params: P("CAP", 2, "AUTO", 1, "TOPICS", 1)},
+			{Harness: "vhC08Replay", Params: P("CAP", 2, "AUTO", 0, "TOPICS", 1)},
+			{Harness: "vhC08Replay", Params: P("CAP", 3, "AUTO", 1, "TOPICS", 1)},
+			{Harness: "vhC09Replay", Params: P("AUTO", 0, "SIZES", 2, "TOPICS", 1, "MAXCOUNT", 4)},
 		},
 		Thorough: []hrun{
 			joe("vhC04Joe", "NSUB", 1, "NMSG", 3, "TOPICS", 0),
 			joe("vhC04Joe", "NSUB", 2, "NMSG", 2, "TOPICS", 0),
+			{Harness: "vhC08Put", Params: P("CAP", 3, "AUTO", 1, "TOPICS", 1)},
+			{Harness: "vhC08Replay", Params: P("CAP", 3, "AUTO", 0, "TOPICS", 1)},
+			{Harness: "vhC08Replay", Params: P("CAP", 4, "AUTO", 1, "TOPICS", 1)},
+			{Harness: "vhC09Put", Params: P("AUTO", 1, "SIZES", 2, "TOPICS", 1)},
+			{Harness: "vhC09Replay", Params: P("AUTO", 1, "SIZES", 3, "TOPICS", 1)},
 		},
-		Labels: []string{"C04/", "panic:"},
+		Labels: []string{"C04/", "C08/", "C09/", "panic:"},
 		Bounds: map[string]string{
-			"quick":    "every interleaving of 1 resuming Subscribe (presenting no ID, the ID of either message, or a never-issued ID) with 1 publisher x 2 messages, default or symbolic one-byte topics; the replayer is the contract of harness/sse_oracle (C08/C09 decide that the real replayers implement it, including 'the newest ID replays nothing')",
+			"quick":    "every interleaving of 1 resuming Subscribe (presenting no ID, the ID of either message, or a never-issued ID) with 1 publisher x 2 messages, default or symbolic one-byte topics; the replayer is a contract (Put stamps and returns the ID-carrying copy; Replay delivers exactly the later matching stamped messages); that the real FiniteReplayer/ValidReplayer implement it - start index after the presented ID, newest/never-issued/unset ID replay nothing, consecutive automatic IDs - is decided by the C08/C09 inductive-step harnesses, run here too for capacities 2-3 / buffer length 4",
 			"thorough": "3 messages; 2 resuming subscribers with 2 messages",
 		},
 		Outside: []string{"Joe composed with the real FiniteReplayer/ValidReplayer in one run (assume-guarantee through the replayer contract)", "buffer capacity effects (decided in C08/C09)"},
